@@ -92,16 +92,17 @@ func c02(c *core.Check) {
 		}
 	})
 	agg.flush(c, map[string]string{
-		"read-typestate":              "field loop consumes exactly one value per header; StructBegin..StructEnd..return nil",
-		"read-guard":                  "reader guarded by the spec wire type of its field; else arm skips; default arm consumes",
-		"read-required":               "isset set after the reader; tested before return nil",
-		"write-typestate":             "StructBegin, fields in order, [unknown], FieldStop, StructEnd, return nil",
-		"write-union-count":           "CountSetFields != 1 error dominates WriteStructBegin",
-		"writefield-frame":            "FieldBegin(name, spec const, id) .. value events of the shape .. FieldEnd; only optional fields may skip",
-		"readfield-value":             "value events equal the shape's prescription; result assigned to the field",
-		"container-header":            "element wire types per spec; count is len(target)",
-		"read-struct-initialised":     "struct elements read into zero storage get InitDefault() before Read",
-		"read-storage-defaults-agree": "InitDefault() (container elements) and NewX() (everything else) prepare the same declared defaults",
+		"read-typestate":                   "field loop consumes exactly one value per header; StructBegin..StructEnd..return nil",
+		"read-guard":                       "reader guarded by the spec wire type of its field; else arm skips; default arm consumes",
+		"read-required":                    "isset set after the reader; tested before return nil",
+		"write-typestate":                  "StructBegin, fields in order, [unknown], FieldStop, StructEnd, return nil",
+		"write-union-count":                "CountSetFields != 1 error dominates WriteStructBegin",
+		"writefield-frame":                 "FieldBegin(name, spec const, id) .. value events of the shape .. FieldEnd; only optional fields may skip",
+		"readfield-value":                  "value events equal the shape's prescription; result assigned to the field",
+		"container-header":                 "element wire types per spec; count is len(target)",
+		"read-struct-initialised":          "struct elements read into zero storage get InitDefault() before Read",
+		"read-storage-defaults-agree":      "InitDefault() (container elements) and NewX() (everything else) prepare the same declared defaults",
+		"read-present-container-allocated": "a container present on the wire is allocated whatever its size",
 	})
 	for _, k := range []string{"read-typestate", "read-guard", "write-typestate", "writefield-frame", "readfield-value", "read-struct-initialised", "read-storage-defaults-agree"} {
 		c.Min(k, 1)
@@ -661,6 +662,59 @@ func c02readField(agg *aggregate, r *rendered) {
 				if !inits {
 					agg.fail("read-struct-initialised", k, fmt.Sprintf("under [%s] shape %s: %s is read into zero storage (%s) without InitDefault(): fields absent on the wire end up zero instead of their declared default", r.R.Valuation, f.Shape, id.Name, rules.ExprText(as.Rhs[0])))
 				}
+			}
+		}
+		return true
+	})
+	// a container that is present on the wire is allocated whatever its size: IsSet of an optional container is `!= nil`, so
+	// an empty map left nil reads back as "unset" (and a getter answers the declared default instead of the empty value).
+	// In the statement list that holds a Read<Map|List|Set>Begin call, a `make(…)` is assigned unconditionally afterwards.
+	ast.Inspect(fd.Body, func(nd ast.Node) bool {
+		var list []ast.Stmt
+		switch b := nd.(type) {
+		case *ast.BlockStmt:
+			list = b.List
+		case *ast.CaseClause:
+			list = b.Body
+		default:
+			return true
+		}
+		for i, st := range list {
+			begins := false
+			if as, ok := st.(*ast.AssignStmt); ok && len(as.Rhs) == 1 {
+				if _, name, _, ok := rules.SelectorCall(as.Rhs[0]); ok && (name == "ReadMapBegin" || name == "ReadListBegin" || name == "ReadSetBegin") {
+					begins = true
+				}
+			}
+			if !begins {
+				continue
+			}
+			agg.check("read-present-container-allocated", k)
+			made := false
+			for _, later := range list[i+1:] {
+				var rhs []ast.Expr
+				switch x := later.(type) {
+				case *ast.AssignStmt:
+					if len(x.Lhs) == 1 && rules.ExprText(x.Lhs[0]) != "values" {
+						rhs = x.Rhs
+					}
+				case *ast.DeclStmt:
+					if gd, ok := x.Decl.(*ast.GenDecl); ok {
+						for _, sp := range gd.Specs {
+							if vs, ok := sp.(*ast.ValueSpec); ok {
+								rhs = append(rhs, vs.Values...)
+							}
+						}
+					}
+				}
+				for _, e := range rhs {
+					if call, ok := e.(*ast.CallExpr); ok && rules.ExprText(call.Fun) == "make" {
+						made = true
+					}
+				}
+			}
+			if !made {
+				agg.fail("read-present-container-allocated", k, fmt.Sprintf("under [%s] shape %s: after %s the container is not allocated unconditionally: an empty container that is present in the data is left nil, so an optional field reads back as unset and Write(Read(x)) drops it", r.R.Valuation, f.Shape, rules.ExprText(st.(*ast.AssignStmt).Rhs[0])))
 			}
 		}
 		return true
